@@ -72,6 +72,10 @@ def expr_source(cell):
         "macro_default": f"{{% macro m v: {E} %}}[{{{{ v }}}}]{{% endmacro %}}{{% call m %}}",
         "liquid": f"{{% liquid\n echo {E}\n%}}", "ifchanged": f"{{% ifchanged %}}{{{{ {E} }}}}{{% endifchanged %}}",
         "filter_arg": f"{{{{ 'a' | append: {E} }}}}", "range": f"{{% for v in (1..{E}) %}}{{{{ v }}}}{{% endfor %}}",
+        "include_with_shadow": f"{{% include 'p' with {E} as v, x: 'alt', y: 'alt' %}}", "include_for_shadow": f"{{% include 'p' for {E} as v, x: arr, y: 'alt' %}}",
+        "render_with_shadow": f"{{% render 'p' with {E} as v, x: 'alt', y: 'alt' %}}", "render_for_shadow": f"{{% render 'p' for {E} as v, x: arr, y: 'alt' %}}",
+        "with_shadow": f"{{% with x: 'alt', v: {E} %}}<{{{{ v }}}}>{{% endwith %}}",
+        "call_shadow": f"{{% macro m v, x %}}[{{{{ v }}}}{{{{ x }}}}]{{% endmacro %}}{{% call m x: 'alt', v: {E} %}}",
         "index": f"{{{{ arr[{E}] }}}}", "include_name": f"{{% include {E} %}}", "render_name": f"{{% render {E} %}}",
     }[c]
 
